@@ -512,14 +512,14 @@ def full_map(rnd, leaves, lvl, sel, expl):
 def rnd_case(rnd, idx):
     aspos = rnd.random() < 0.85
     kind = rnd.choices(["fn", "cls", "list", "dict"], [4, 3, 2, 3])[0]
-    fnames = ["f", "g", "h", "run", "fit"] + (["config"] if rnd.random() < 0.08 else [])
+    fnames = ["f", "g", "h", "run", "fit", "conf"]   # (a component called config is outside the universe: see MC_Cli.tla, shape 8)
     cnames = ["K", "Tool"]
 
     def mk_fn(name, maxn=6):
         return {"k": "fn", "name": name, "params": rnd_sig(rnd, maxn), "methods": []}
 
     def mk_cls(name):
-        mnames = sorted(rnd.sample(["m1", "m2", "go", "apply"] + (["config"] if rnd.random() < 0.08 else []), rnd.randint(1, 3)))
+        mnames = sorted(rnd.sample(["m1", "m2", "go", "apply"], rnd.randint(1, 3)))
         init = [p for p in rnd_sig(rnd, 4) if p["n"] not in mnames]
         meths = [{"name": m, "params": rnd_sig(rnd, 4)} for m in mnames]
         if rnd.random() < 0.06:       # a METHOD parameter called config (recorded deviation)
